@@ -14,5 +14,6 @@ func TestVerifSim(t *testing.T) {
 		"C13": verifEngineC,
 		"C14": verifEngineC14,
 		"C15": verifEngineC15,
+		"C16": verifEngineC16,
 	})
 }
